@@ -556,15 +556,17 @@ structure Linked3 (m m' : Map X) (ps : List (Nat × Nat)) : Prop where
   pairs : ∀ pq, pq ∈ ps → m'.β 3 pq.1 = pq.2 ∧ m'.β 3 pq.2 = pq.1 ∧ m.β 3 pq.1 = 0 ∧ m.β 3 pq.2 = 0 ∧
     pq.1 ≠ 0 ∧ pq.2 ≠ 0 ∧ pq.1 < m.n ∧ pq.2 < m.n
   rest : ∀ x, (∀ pq, pq ∈ ps → x ≠ pq.1 ∧ x ≠ pq.2) → m'.β 3 x = m.β 3 x
+  /-- different pairs share no dart (each link needs both darts 3-free) -/
+  cross : ps.Pairwise (fun x y => x.1 ≠ y.1 ∧ x.1 ≠ y.2 ∧ x.2 ≠ y.1 ∧ x.2 ≠ y.2)
 
 theorem Linked3.refl (m : Map X) : Linked3 m m [] :=
-  ⟨rfl, fun _ _ _ => rfl, fun pq h => absurd h (by simp), fun _ _ => rfl⟩
+  ⟨rfl, fun _ _ _ => rfl, fun pq h => absurd h (by simp), fun _ _ => rfl, List.Pairwise.nil⟩
 
 theorem Linked3.single {m : Map X} (h : Sized 4 m) {l r : Nat} (hl0 : l ≠ 0) (hr0 : r ≠ 0)
     (hl : l < m.n) (hr : r < m.n) (f1 : m.β 3 l = 0) (f2 : m.β 3 r = 0) :
     Linked3 m (m.linkI 3 l r) [(l, r)] := by
   have eβ := h.β_linkI (i := 3) (by omega) hl hr
-  refine ⟨rfl, ?_, ?_, ?_⟩
+  refine ⟨rfl, ?_, ?_, ?_, by simp⟩
   · intro e d he
     rw [eβ]
     have : ¬ (3 = e) := fun hh => he hh.symm
@@ -597,7 +599,8 @@ theorem Linked3.append {m m1 m2 : Map X} {ps qs : List (Nat × Nat)} (h1 : Linke
     · rw [← a1, hh, b4]
     · rw [← a2, hh, b3]
     · rw [← a2, hh, b4]
-  refine ⟨h2.n.trans h1.n, fun e d he => by rw [h2.other e d he, h1.other e d he], ?_, ?_⟩
+  refine ⟨h2.n.trans h1.n, fun e d he => by rw [h2.other e d he, h1.other e d he], ?_, ?_,
+    List.pairwise_append.2 ⟨h1.cross, h2.cross, fun pq hp rs hq => disj pq hp rs hq⟩⟩
   · intro pq hm
     rcases List.mem_append.1 hm with hp | hq
     · obtain ⟨a1, a2, a3, a4, a5, a6, a7, a8⟩ := h1.pairs pq hp
